@@ -220,13 +220,15 @@ prop("C14", coq_deps=PARSER_DEPS,
                   "'every parsed element can be added to a builder without panicking' is exercised by the harness, not proved (the builder "
                   "conversion of a successfully converted term is total by typing in the model)"],
      harness_timeout=900)
-prop("C15", source_level=True, coq_deps=PARSER_DEPS + SRC_DEPS + ["GenFnPrintProofs.v", "PrintStableProofs.v", "TokenProofs.v", "SymbolsProofs.v", "WireProofs.v", "Token.v", "Wire.v", "Symbols.v", "DTerm.v", "Chain.v", "History.v"],
+prop("C15", source_level=True, coq_deps=PARSER_DEPS + SRC_DEPS + ["GenFnPrintProofs.v", "GenFnPrintPredProofs.v", "PrintStableProofs.v", "TokenProofs.v", "SymbolsProofs.v", "WireProofs.v", "Token.v", "Wire.v", "Symbols.v", "DTerm.v", "Chain.v", "History.v"],
      theorems=['C15_print_expr', 'C15_roundtrip', 'C15_roundtrip_from_grammar', 'C15_date_roundtrip', 'C15_civil_calendar', 'C15_layout_lexes', 'C15_block_layout_lexable', 'C15_layout_lexes_any_layout', 'C15_roundtrip_any_layout', 'C15_print_total',
                'C15_stable_under_serialization', 'C15_reload_prints_the_same', 'C15_any_block_position', 'C15_position_channel',
                'C15_source_print_is_model', 'C15_source_print_is_model_g', 'C15_source_print_total', 'C15_source_parens_printed',
-               'C15_source_operator_spellings', 'C15_source_unary_spellings'],
+               'C15_source_operator_spellings', 'C15_source_unary_spellings',
+               'C15_source_predicate_is_model', 'C15_source_rule_is_model', 'C15_source_check_is_model', 'C15_source_check_joins_queries_with_or'],
      trusted=PARSER_TRUSTED + [SRC_TRUSTED + "; for C15 (stage F) also Expression.Print, UnaryOp.Print, BinaryOp.Print and stringstack.Push/Pop of "
-                               "datalog/expressions.go; Term.String() (dates, hex, integers, sets) is NOT translated: it is an oracle parameter tstr of "
+                               "datalog/expressions.go, and (stage H) SymbolDebugger.Predicate/Expression/Rule/CheckQuery/Check of datalog/symbol.go (struct Rule = the model record drule; "
+                               "strings.Join = the model's join; %v / %s of a Term = the oracle); Term.String() (dates, hex, integers, sets) is NOT translated: it is an oracle parameter tstr of "
                                "the generated printer and the statements hold for every tstr",
                                "the printers are modelled over resolved values (S level); symbol resolution through the token's cumulative table is the "
                                "subject of C07 and is exercised here by printing blocks at every position of real tokens"],
@@ -238,8 +240,9 @@ prop("C15", source_level=True, coq_deps=PARSER_DEPS + SRC_DEPS + ["GenFnPrintPro
                   "property's domain excludes it",
                   "source-level statements (Properties/C15_source_level.v): the regenerated Expression.Print equals the model's print_expr on the resolved "
                   "expression for every op sequence (table length in int range, operands in the ranges of the Go types), every operator prints with "
-                  "its own spelling, a Parens op always contributes ( v ) whatever v is; the printers of facts, rules, checks and blocks "
-                  "(SymbolDebugger, types.go) are not translated: for them the tie is the correspondence"])
+                  "its own spelling, a Parens op always contributes ( v ) whatever v is; the regenerated printers of predicates, rules, check queries and checks "
+                  "(SymbolDebugger) equal print_pred / print_rule / print_check of the model on the resolved value (Properties/C15_source_level_preds.v); "
+                  "the block printer of types.go (sections, sorting) and the World / FactSet printers are not translated: for them the tie is the correspondence"])
 
 TOKEN_DEPS = WIRE_DEPS + ["SymbolsProofs.v", "TokenProofs.v", "TableProofs.v"]
 TOKEN_TRUSTED = ["Model/Wire.v: hand-written model of the protobuf wire format and of protobuf-go's proto2 decoding rules, field numbers taken from the "
